@@ -7,6 +7,9 @@ dst = Path('/verif/seeded') / sid
 dst.mkdir(parents=True, exist_ok=True)
 shutil.copy(src / 'patch.diff', dst / 'patch.diff')
 shutil.copy(src / 'demo_test.py', dst / 'demo_test.py')
+for extra_py in src.glob('*.py'):
+    if extra_py.name != 'demo_test.py':
+        shutil.copy(extra_py, dst / extra_py.name)     # helper modules the demo imports
 if (src / 'notes.md').exists():
     shutil.copy(src / 'notes.md', dst / 'notes.md')
 confirm = json.loads((src / 'confirm.json').read_text()) if (src / 'confirm.json').exists() else {}
